@@ -324,8 +324,16 @@ def attach_caller_branch(summ, call):
     stops = {const_truth(pa.value) for ps in summ.per_class.values() if ps for pa in ps if pa.how == "return"}
     if ex is None or None in stops or ex in stops:
         raise Unknown("the helper's return values do not tell exhaustion from a stop")
-    when_ex = p.body if (ex != neg) else p.orelse
-    when_stop = p.orelse if (ex != neg) else p.body
+    # `if T: <..leaves>` followed by REST is `if T: <..leaves> else: REST`
+    orelse = p.orelse
+    if not orelse and p.body and isinstance(p.body[-1], (ast.Continue, ast.Break, ast.Return, ast.Raise)):
+        from .guards import _block_of
+        _o, _f, lst_ = _block_of(p)
+        if lst_ is not None:
+            k_ = [i for i, x in enumerate(lst_) if x is p][0]
+            orelse = lst_[k_ + 1:]
+    when_ex = p.body if (ex != neg) else orelse
+    when_stop = orelse if (ex != neg) else p.body
     summ.exhausted = tuple(summ.exhausted) + tuple(_straight(when_ex, None, {}))
     stop_eff = tuple(_straight(when_stop, None, {}))
     if stop_eff:
